@@ -271,7 +271,13 @@ func instrumentPkg(conf pkgConf, consts map[string]string, targets map[string]bo
 	if conf.path != "" {
 		ipath = conf.path
 	}
-	if conf.files == nil && !*noReset && !conf.timersOnly {
+	hasEmbed := false
+	for _, n := range names {
+		if raw, err := os.ReadFile(filepath.Join(dir, n)); err == nil && bytes.Contains(raw, []byte("\n//go:embed ")) {
+			hasEmbed = true // such files are left alone (see below), so nothing is generated into them
+		}
+	}
+	if conf.files == nil && !*noReset && !conf.timersOnly && !hasEmbed {
 		// package-level state must start afresh in every execution: add a function that re-runs
 		// the package's variable initialisation and init functions (see resetGlobals)
 		aug, err := resetGlobals(dir, ipath, fset, files, names)
@@ -315,7 +321,7 @@ func instrumentPkg(conf pkgConf, consts map[string]string, targets map[string]bo
 				continue
 			}
 		}
-		if raw, err := os.ReadFile(filepath.Join(dir, names[i])); err == nil && bytes.Contains(raw, []byte("\n//go:embed ")) && !bytes.Contains(raw, []byte("verifResetGlobals")) {
+		if raw, err := os.ReadFile(filepath.Join(dir, names[i])); err == nil && bytes.Contains(raw, []byte("\n//go:embed ")) {
 			// the rewriter drops comments, and an embed directive is one: such a file is left as it is
 			fmt.Fprintf(os.Stderr, "vinstr: NOTE %s/%s carries //go:embed and is not instrumented\n", conf.dir, names[i])
 			continue
